@@ -434,6 +434,20 @@ pub fn png_odd_menu() -> Vec<Wrapper> {
             }),
         });
     }
+    // an IDAT run of more than 1024 bytes whose plaintext is empty (250 empty stored blocks), one chunk / two chunks
+    for (d, sp) in [("one chunk", vec![]), ("two chunks", vec![700usize])] {
+        let sp2 = sp.clone();
+        v.push(Wrapper {
+            kind: WKind::Png,
+            descr: format!("png 250 empty stored blocks (empty plaintext, > 1024 bytes of IDAT), {}", d),
+            supported: false,
+            build: Arc::new(move |_s| {
+                let st = Stream { blocks: (0..250).map(|_| Block::Stored { data: vec![], pad: 0 }).collect(), final_pad: 0 };
+                let z = zlib_wrap([0x78, 0x01], &serialise(&st), &[]);
+                png_wrap(&z, &sp2, true)
+            }),
+        });
+    }
     // k bytes between the end of the stream and the Adler-32
     for k in [1usize, 3, 4] {
         v.push(Wrapper {
